@@ -94,7 +94,7 @@ def rhs(m, s, d):
         if d["vc"] == "both":
             nxt = nxt + 0.25 * s["DT"] * s["vcq"]
         if d["vg"]:
-            nxt = nxt + 0.5 * s["DT"] * s["vg"] * X
+            nxt = nxt + 0.5 * s["DT"] * s["vg"] * m.sin(X)
         if d["vc"]:
             nxt = nxt + 0.3 * s["DT"] * s["vc"]
         out = {"x": nxt}
@@ -133,7 +133,7 @@ def rhs(m, s, d):
     if d["vc"] == "both":
         dx = dx + 0.25 * s["vcq"]
     if d["vg"]:
-        dx = dx + 0.5 * s["vg"] * X
+        dx = dx + 0.5 * s["vg"] * m.sin(X)
     if d["vc"]:
         dx = dx + 0.3 * s["vc"]
     if d["alg"]:
